@@ -1094,4 +1094,59 @@ def runOnNpu (d : OpDesc) : Verdict :=
   | .npu => isOperatorSupported d
   | v => v
 
+-- ------------------------------------------------------------------------------------------------
+-- what happens between the two checks (first rewrite round of `tflite_optimise_graph`)
+
+def setAttr (d : OpDesc) (k : Name) (v : AttrV) : OpDesc :=
+  { d with attrs := if d.attrs.any (·.1 == k) then d.attrs.map (fun (k', v') => if k' == k then (k', v) else (k', v'))
+                    else d.attrs ++ [(k, v)] }
+
+/-- `fixup_pool_strides`: a pooling whose kernel, stride and IFM extent coincide gets stride 1 and VALID
+    padding *before* the supported-operator check sees it.  Returns the operator and whether it changed. -/
+def fixupPoolStrides (d : OpDesc) : Except String (OpDesc × Bool) :=
+  if [n!"AvgPool", n!"MaxPool", n!"QuantizedAvgPool", n!"QuantizedMaxPool"].contains d.type then do
+    let i ← (← need (ifm d)).dims
+    let (kw, kh) ← kernelSize d
+    let (sw, sh) ← kernelStride d
+    let iw ← pyIdx i 2
+    let ih ← pyIdx i 1
+    if kw == sw && sw == iw && kh == sh && sh == ih then
+      let d1 := match attr? d n!"strides" with
+        | some (.ints [n, _, _, c]) => setAttr d n!"strides" (.ints [n, 1, 1, c])
+        | _ => d
+      let d2 := setAttr (setAttr (setAttr d1 n!"stride_w" (.int 1)) n!"stride_h" (.int 1)) n!"padding" (.str n!"VALID")
+      return (d2, !(sw == 1 && sh == 1))
+    else return (d, false)
+  else .ok (d, false)
+
+/-- `detect_asymmetric_weights`: int8/int16 convolution or depthwise convolution whose weight zero points
+    are not all zero (placed on the CPU unless `--force-symmetric-int-weights`) -/
+def asymmetricWeights (d : OpDesc) : Except String Bool :=
+  let bt := blockType d
+  if bt == n!"ConvolutionMxN" || bt == n!"ConvolutionDepthWise" then do
+    let i ← need (ifm d)
+    if i.dtype == n!"int8" || i.dtype == n!"int16" then
+      let w ← need (weights d)
+      match w.quant with
+      | some q => match q.zps with
+        | some z => return !(z.all (· == 0))
+        | none => exc
+      | none => exc
+    else return false
+  else .ok false
+
+/-- the value of `run_on_npu` when the operator rewrite rounds start, with the undocumented mechanisms that
+    took part: semantic check, `check_asymmetric_weights`, `fixup_pool_strides`, supported check -/
+def placeModel (d : OpDesc) : Verdict × List String :=
+  match isOperatorSemanticValid d with
+  | .npu =>
+    match asymmetricWeights d with
+    | .error e => (.raised n!"check_asymmetric_weights" e, [])
+    | .ok true => (.cpu n!"check_asymmetric_weights", ["asymmetric_weights"])
+    | .ok false =>
+      match fixupPoolStrides d with
+      | .error e => (.raised n!"fixup_pool_strides" e, [])
+      | .ok (d', changed) => (isOperatorSupported d', if changed then ["fixup_pool_strides"] else [])
+  | v => (v, [])
+
 end VelaVerif.Constraints
